@@ -191,8 +191,10 @@ namespace bloch::compiler {
 
         bool nonPrimitiveIntoPrimitive(const SemanticAnalyser::TypeInfo& expected,
                                        const SemanticAnalyser::TypeInfo& actual) {
+            // a value typed by a class type parameter is no primitive either: which type T stands
+            // for is known only per instantiation ('int k = this.v;' in Box<T> ran with a string)
             return expected.className.empty() && expected.value != ValueType::Unknown &&
-                   !actual.className.empty() && !actual.isTypeParam;
+                   !actual.className.empty();
         }
 
         // '{...}' has no type of its own; it is only meaningful where an array is expected.
